@@ -40,6 +40,9 @@ def domain_of(prop):
     if prop == "C20":
         from . import det
         return det
+    if prop == "C18":
+        from . import derive
+        return derive
     if prop == "C16":
         from . import cs
         return cs
